@@ -139,6 +139,23 @@ func c06RemapSpec(spec string, target []ID) string {
 
 // c06GenSpec draws a structure of the family over n holders taken from `keep` (old holders that stay)
 // and fresh IDs ≤ 64.
+// c06SameIDSet: the two ID lists contain the same holders
+func c06SameIDSet(a, b []ID) bool {
+	if len(a) != len(b) {
+		return false
+	}
+	m := map[ID]bool{}
+	for _, x := range a {
+		m[x] = true
+	}
+	for _, x := range b {
+		if !m[x] {
+			return false
+		}
+	}
+	return true
+}
+
 func c06GenSpec(r *Rng, family string, n int, old []ID, keepN int) string {
 	for range 200 {
 		base := genSpec(r, family, n, true)
@@ -850,7 +867,26 @@ func c06History[P curves.Point[P, F, S], F algebra.FiniteFieldElement[F], S alge
 			}
 			sameStructure = true
 		case k < 80:
-			next := newSpec(cur.ids, r.IntN(len(cur.ids)+1))
+			next := ""
+			if r.IntN(3) == 0 {
+				// another structure over exactly the same holder set (tighten / loosen / change family in place)
+				for range 20 {
+					fam := accessFamilies[r.IntN(len(accessFamilies))]
+					n := len(cur.ids)
+					if (fam == "bool" || fam == "hier") && n < 3 {
+						continue
+					}
+					cand := c06GenSpec(r, fam, n, cur.ids, n)
+					if cand != cur.spec && c06SameIDSet(accessIDs(mustAccess(cand)), cur.ids) {
+						next = cand
+						o.Count("redistribute.same-holders-other-structure")
+						break
+					}
+				}
+			}
+			if next == "" {
+				next = newSpec(cur.ids, r.IntN(len(cur.ids)+1))
+			}
 			Q := h.anyQualified(cur.ac)
 			anchor := r.IntN(2) == 0
 			if r.IntN(3) == 0 {
